@@ -1,0 +1,239 @@
+//go:build verif
+
+/*
+Verification hook (build tag `verif` only): exposes the queue controller to an
+external harness with fake clients, informer indexers that the harness fills by
+hand (informers are never started, so informer lag is under the harness's
+control) and deterministic in-memory work queues that are drained one item at a
+time.  Adds exported wrappers only; no existing line of the package changes.
+*/
+
+package queue
+
+import (
+	"sync"
+	"time"
+
+	"k8s.io/client-go/kubernetes"
+	"k8s.io/client-go/tools/cache"
+	"k8s.io/client-go/tools/record"
+
+	busv1alpha1 "volcano.sh/apis/pkg/apis/bus/v1alpha1"
+	schedulingv1beta1 "volcano.sh/apis/pkg/apis/scheduling/v1beta1"
+	vcclientset "volcano.sh/apis/pkg/client/clientset/versioned"
+	informerfactory "volcano.sh/apis/pkg/client/informers/externalversions"
+	"volcano.sh/volcano/pkg/controllers/apis"
+	"volcano.sh/volcano/pkg/controllers/framework"
+)
+
+// VerifWorkQueue is a FIFO list behind workqueue.TypedRateLimitingInterface:
+// AddRateLimited re-adds at once (a retry is a re-delivery), Get never blocks
+// (an empty queue reports shutdown, which makes processNext* return false).
+type VerifWorkQueue[T comparable] struct {
+	mu       sync.Mutex
+	items    []T
+	failures map[T]int
+}
+
+func NewVerifWorkQueue[T comparable]() *VerifWorkQueue[T] {
+	return &VerifWorkQueue[T]{failures: map[T]int{}}
+}
+
+func (q *VerifWorkQueue[T]) Add(item T) {
+	q.mu.Lock()
+	defer q.mu.Unlock()
+	for _, x := range q.items {
+		if x == item {
+			return
+		}
+	}
+	q.items = append(q.items, item)
+}
+
+func (q *VerifWorkQueue[T]) Len() int {
+	q.mu.Lock()
+	defer q.mu.Unlock()
+	return len(q.items)
+}
+
+func (q *VerifWorkQueue[T]) Get() (item T, shutdown bool) {
+	q.mu.Lock()
+	defer q.mu.Unlock()
+	if len(q.items) == 0 {
+		var zero T
+		return zero, true
+	}
+	item = q.items[0]
+	q.items = q.items[1:]
+	return item, false
+}
+
+func (q *VerifWorkQueue[T]) Done(item T)                      {}
+func (q *VerifWorkQueue[T]) ShutDown()                        {}
+func (q *VerifWorkQueue[T]) ShutDownWithDrain()               {}
+func (q *VerifWorkQueue[T]) ShuttingDown() bool               { return false }
+func (q *VerifWorkQueue[T]) AddAfter(item T, _ time.Duration) { q.Add(item) }
+func (q *VerifWorkQueue[T]) AddRateLimited(item T) {
+	q.mu.Lock()
+	q.failures[item]++
+	q.mu.Unlock()
+	q.Add(item)
+}
+
+func (q *VerifWorkQueue[T]) Forget(item T) {
+	q.mu.Lock()
+	defer q.mu.Unlock()
+	delete(q.failures, item)
+}
+
+func (q *VerifWorkQueue[T]) NumRequeues(item T) int {
+	q.mu.Lock()
+	defer q.mu.Unlock()
+	return q.failures[item]
+}
+
+// Items returns a copy of the pending items in queue order.
+func (q *VerifWorkQueue[T]) Items() []T {
+	q.mu.Lock()
+	defer q.mu.Unlock()
+	return append([]T(nil), q.items...)
+}
+
+// SetItems replaces the pending items (the harness canonicalises the order in
+// which siblings were enqueued: the lister lists them in map order).
+func (q *VerifWorkQueue[T]) SetItems(items []T) {
+	q.mu.Lock()
+	defer q.mu.Unlock()
+	q.items = append([]T(nil), items...)
+}
+
+// MoveToFront makes the i-th pending item the next one Get returns.
+func (q *VerifWorkQueue[T]) MoveToFront(i int) bool {
+	q.mu.Lock()
+	defer q.mu.Unlock()
+	if i < 0 || i >= len(q.items) {
+		return false
+	}
+	it := q.items[i]
+	rest := append(append([]T(nil), q.items[:i]...), q.items[i+1:]...)
+	q.items = append([]T{it}, rest...)
+	return true
+}
+
+// VerifController wraps a queuecontroller built by the package's own Initialize.
+type VerifController struct {
+	c  *queuecontroller
+	Q  *VerifWorkQueue[*apis.Request]
+	CQ *VerifWorkQueue[*busv1alpha1.Command]
+	// LastErr / LastCmdErr: what handleQueue / handleCommand returned for the item
+	// the last ProcessNextWorkItem / ProcessNextCommand processed
+	LastErr    error
+	LastCmdErr error
+}
+
+// NewVerifController mirrors newFakeController of queue_controller_test.go.
+// NOTE Initialize binds the package-level state.SyncQueue/OpenQueue/CloseQueue
+// to this instance: one live controller per process.
+func NewVerifController(vc vcclientset.Interface, kube kubernetes.Interface, maxRequeueNum int) *VerifController {
+	factory := informerfactory.NewSharedInformerFactory(vc, 0)
+	c := &queuecontroller{}
+	opt := framework.ControllerOption{
+		VolcanoClient:           vc,
+		KubeClient:              kube,
+		VCSharedInformerFactory: factory,
+		MaxRequeueNum:           maxRequeueNum,
+	}
+	if err := c.Initialize(&opt); err != nil {
+		panic(err)
+	}
+	v := &VerifController{c: c}
+	v.Reset(vc, kube, maxRequeueNum)
+	return v
+}
+
+// Reset gives the controller fresh clients, empty listers, empty work queues
+// and an empty PodGroup index (so that one instance serves many cases).
+func (v *VerifController) Reset(vc vcclientset.Interface, kube kubernetes.Interface, maxRequeueNum int) {
+	c := v.c
+	c.vcClient = vc
+	c.kubeClient = kube
+	c.maxRequeueNum = maxRequeueNum
+	if c.maxRequeueNum < 0 {
+		c.maxRequeueNum = -1
+	}
+	c.recorder = &record.FakeRecorder{}
+	v.Q = NewVerifWorkQueue[*apis.Request]()
+	v.CQ = NewVerifWorkQueue[*busv1alpha1.Command]()
+	c.queue = v.Q
+	c.commandQueue = v.CQ
+	// the real handlers, observed
+	c.syncHandler = func(req *apis.Request) error {
+		v.LastErr = c.handleQueue(req)
+		return v.LastErr
+	}
+	c.syncCommandHandler = func(cmd *busv1alpha1.Command) error {
+		v.LastCmdErr = c.handleCommand(cmd)
+		return v.LastCmdErr
+	}
+	c.pgMutex.Lock()
+	c.podGroups = make(map[string]map[string]struct{})
+	c.pgMutex.Unlock()
+	for _, ix := range []cache.Indexer{v.QueueIndexer(), v.PodGroupIndexer(), v.CommandIndexer()} {
+		if ix != nil {
+			_ = ix.Replace(nil, "")
+		}
+	}
+}
+
+func (v *VerifController) QueueIndexer() cache.Indexer {
+	return v.c.queueInformer.Informer().GetIndexer()
+}
+func (v *VerifController) PodGroupIndexer() cache.Indexer {
+	return v.c.pgInformer.Informer().GetIndexer()
+}
+func (v *VerifController) CommandIndexer() cache.Indexer {
+	if v.c.cmdInformer == nil {
+		return nil
+	}
+	return v.c.cmdInformer.Informer().GetIndexer()
+}
+
+// informer event handlers, exactly the functions Initialize registers
+func (v *VerifController) AddQueue(q *schedulingv1beta1.Queue)             { v.c.addQueue(q) }
+func (v *VerifController) UpdateQueue(o, n *schedulingv1beta1.Queue)       { v.c.updateQueue(o, n) }
+func (v *VerifController) DeleteQueue(q *schedulingv1beta1.Queue)          { v.c.deleteQueue(q) }
+func (v *VerifController) AddPodGroup(p *schedulingv1beta1.PodGroup)       { v.c.addPodGroup(p) }
+func (v *VerifController) UpdatePodGroup(o, n *schedulingv1beta1.PodGroup) { v.c.updatePodGroup(o, n) }
+func (v *VerifController) DeletePodGroup(p *schedulingv1beta1.PodGroup)    { v.c.deletePodGroup(p) }
+func (v *VerifController) AddCommand(cmd *busv1alpha1.Command)             { v.c.addCommand(cmd) }
+
+// ProcessNextWorkItem / ProcessNextCommand run the real worker bodies once;
+// false means the respective queue was empty.
+func (v *VerifController) ProcessNextWorkItem() bool { return v.c.processNextWorkItem() }
+func (v *VerifController) ProcessNextCommand() bool  { return v.c.processNextCommand() }
+
+// HandleCommand is the command worker's handler without the work queue (used
+// to deliver one Command object to several workers at once).
+func (v *VerifController) HandleCommand(cmd *busv1alpha1.Command) error {
+	return v.c.handleCommand(cmd)
+}
+
+// HandleCommandErr is the retry decision of the command worker.
+func (v *VerifController) HandleCommandErr(err error, cmd *busv1alpha1.Command) {
+	v.c.handleCommandErr(err, cmd)
+}
+
+// PodGroupIndex returns a copy of queue name -> PodGroup keys.
+func (v *VerifController) PodGroupIndex() map[string][]string {
+	v.c.pgMutex.RLock()
+	defer v.c.pgMutex.RUnlock()
+	out := map[string][]string{}
+	for q, m := range v.c.podGroups {
+		l := make([]string, 0, len(m))
+		for k := range m {
+			l = append(l, k)
+		}
+		out[q] = l
+	}
+	return out
+}
